@@ -48,6 +48,11 @@ fn case_strategy(tier: Tier) -> impl Strategy<Value = Case> {
     let init = prop_oneof![Just(Init::KMeans), Just(Init::Random)];
     let n_runs = prop_oneof![4 => Just(1u8), 1 => Just(2u8), 1 => Just(3u8)];
     let max_iter = prop_oneof![1 => Just(1u32), 3 => Just(100u32), 10 => Just(500u32)];
+    // unit of the data: 10^unit_exp (reg_covar scales with its square); 0 first so that shrinking goes to the unit scale
+    let unit_exp = prop_oneof![
+        5 => Just(0i8), 1 => Just(-2i8), 1 => Just(-4i8), 1 => Just(-6i8), 1 => Just(-9i8), 1 => Just(-12i8), 1 => Just(3i8), 1 => Just(6i8),
+    ];
+    let float32 = prop_oneof![3 => Just(false), 1 => Just(true)];
     let nmax = tier.pick(300usize, 600usize);
     let data = (
         1usize..=MAX_DIMS,
@@ -58,11 +63,13 @@ fn case_strategy(tier: Tier) -> impl Strategy<Value = Case> {
         30usize..=nmax,
         vec(comp_strategy(), 1..=4),
         any::<u64>(),
+        unit_exp,
+        float32,
     );
     let config = (1usize..=4, init, any::<u64>(), 0u8..3, 0u8..2, n_runs, max_iter);
     (data, config, vec(query_strategy(), 4..=12)).prop_map(
         |(
-            (dims, layout, degenerate, scale_idx, offset_idx, n, comps, data_seed),
+            (dims, layout, degenerate, scale_idx, offset_idx, n, comps, data_seed, unit_exp, f32),
             (n_clusters, init, rng_seed, reg_idx, tol_idx, n_runs, max_iter),
             queries,
         )| Case {
@@ -71,6 +78,8 @@ fn case_strategy(tier: Tier) -> impl Strategy<Value = Case> {
             degenerate,
             scale_idx,
             offset_idx,
+            unit_exp,
+            f32,
             n,
             comps,
             data_seed,
@@ -82,7 +91,8 @@ fn case_strategy(tier: Tier) -> impl Strategy<Value = Case> {
             n_runs,
             max_iter,
             queries,
-        },
+        }
+        .sanitised(),
     )
 }
 
@@ -138,7 +148,10 @@ fn far_grid(tier: Tier) -> Vec<Case> {
                             queries.push(Query::FarAll { s, dir: axis });
                             queries.push(Query::FarAll { s, dir: diag });
                         }
+                        let units = [0i8, -9, 3, -4, 0, -12, 6, -2, 0, -6];
                         out.push(Case {
+                            unit_exp: units[(counter % units.len() as u64) as usize],
+                            f32: counter % 4 == 3,
                             dims,
                             layout: *layout,
                             degenerate: Degenerate::None,
@@ -155,7 +168,8 @@ fn far_grid(tier: Tier) -> Vec<Case> {
                             n_runs: 1 + (counter % 5 == 0) as u8,
                             max_iter: 500,
                             queries,
-                        });
+                        }
+                        .sanitised());
                     }
                 }
             }
@@ -168,8 +182,8 @@ pub fn property() -> Property {
     Property {
         id: "C10",
         rule: "case = (1..=4 generating Gaussian components in 1..=6 dims: separated / overlapping / anisotropic with random rotation; \
-               global scale {1, 0.05, 20}, offset {0, 1e3, -1e4} scale units; optional constant column or grid-quantised rows; n 30..=300 (thorough 600); \
-               rows derived from a generated u64), configuration (n_clusters 1..=4, KMeans|Random init, rng seed, reg_covar {1e-6,1e-3,1e-1}, \
+               global scale {1, 0.05, 20}, offset {0, 1e3, -1e4} scale units; data unit 10^e, e in {0,-2,-4,-6,-9,-12,3,6} (every coordinate, every query and sqrt(reg_covar) scale with it); f64 (75%) or f32 (25%: no degenerate column, reg_covar >= 1e-3 unit^2, 1e-1 for anisotropic, offset <= 1e3); optional constant column or grid-quantised rows; n 30..=300 (thorough 600); \
+               rows derived from a generated u64), configuration (n_clusters 1..=4, KMeans|Random init, rng seed, reg_covar {1e-6,1e-3,1e-1} * unit^2, \
                tolerance {1e-3,1e-5}, n_runs 1..=3, max_n_iterations {1,100,500}), 4..=12 queries (training rows, box-uniform, \
                generating centre + s*sigma_max*u, data centroid + s*(radius+sqrt(reg))*u, s in {10,40,100,1e3,1e6}); plus a deterministic grid \
                (dims x layout x n_clusters x init x reg_covar) that asks every far level from every component. \
@@ -178,7 +192,11 @@ plus a large-batch stratum (big_batch: same data/configuration generator with n_
                Non-trivial = fit succeeded with >= 2 components and >= 1 query at least 40 standard deviations (Mahalanobis, fitted model) from every component; \
                distinct = distinct canonical JSON of the case. Fits that return Err are counted as not judged (except max_n_iterations = 1, where Err is the required outcome)",
         assumptions: vec![
-            "f64 only; covariance type Full (the only one linfa offers); observations are finite".into(),
+            "covariance type Full (the only one linfa offers); observations are finite; f64 and f32 models, every returned value converted exactly to f64 before it is judged".into(),
+            "every tolerance is relative (to the covariance magnitude / data range) or dimensionless, so the obligations are independent of the data unit; the values below are the f64 ones. \
+             f32 values: weights sum 2e-4, row sum 1e-4, bounding box 2e-4, symmetry 2e-4 sqrt(C_ii C_jj), lambda_min slack 1.2e-4 lambda_max, precisions 1.1e-4 (p cond + 1) (= 900 eps32), \
+             log-density uncertainty 5.4e-4 cond (maha2+p), posterior floor 1e-4, margin floor 1e-3, batch-vs-small probabilities 1e-5".into(),
+            "f32 cases stay inside the domain where single precision can represent a positive-definite covariance (condition number <~ 1e5): no constant/quantised columns, reg_covar >= 1e-3 unit^2".into(),
             "weights: each > 0, |sum - 1| <= 1e-9".into(),
             "means inside the per-feature data range extended by 1e-9 * max(|lo|,|hi|,hi-lo) (they are convex combinations of rows)".into(),
             "covariances: |C_ij - C_ji| <= 1e-12 sqrt(C_ii C_jj); the harness' own Cholesky of the symmetrised matrix must succeed; diag >= reg_covar (1-1e-9); \
